@@ -14,6 +14,9 @@ fn main() {
     if args.len() >= 3 && args[1] == "pure-one" {
         std::process::exit(dnsmon::checks::c17::pure_one(&args[2]));
     }
+    if args.len() >= 2 && args[1] == "noop" {
+        return;
+    }
     if args.len() < 2 || args[1] != "run" {
         eprintln!("usage: dnsmon run --check Cxx --seed S --tier quick|thorough --shard i --nshards N --out file");
         std::process::exit(64);
